@@ -72,12 +72,28 @@ def shard(ctx, arg):
         nsteps = rng.choice([1, 2, 3, 5, 8, 15, 30])
         counter = 0
         failed = False
+        # --- simulation of the KNOWN mechanism (renames hook the shared string index; id items and encoded items cache names):
+        # used only to decide whether a divergence is exactly what that mechanism produces (explain-away), never as the oracle
+        hook = {}
+        mid = {id(it): it["orig"] for it in items if it["kind"] == "method"}
+        fid = {id(it): it["orig"] for it in items if it["kind"] == "field"}
+        shown = {id(it): it["orig"] for it in items}
+        used_new = {"method": [], "field": []}
+
+        def cls_of(it):
+            return it["key"] if it["kind"] == "class" else it["key"][0]
         for step in range(nsteps):
             r = rng.random()
             if r < 0.5:
                 it = rng.choice(items)
                 counter += 1
-                new = ("Lr/Renamed%d;" % counter) if it["kind"] == "class" else "renamed%d" % counter
+                if it["kind"] == "class":
+                    new = "Lr/Renamed%d;" % counter
+                elif used_new[it["kind"]] and rng.random() < 0.3:
+                    new = rng.choice(used_new[it["kind"]])  # the same new name given to another item (legal: different class or descriptor... or even a clash)
+                else:
+                    new = "renamed%d" % counter
+                    used_new[it["kind"]].append(new)
                 history.append(("set_name", it["kind"], it["key"], new))
                 try:
                     objs[id(it)].set_name(new)
@@ -88,6 +104,23 @@ def shard(ctx, arg):
                 current[id(it)] = new
                 if it not in renamed:
                     renamed.append(it)
+                hook[it["orig"]] = new
+                if it["kind"] == "method":
+                    mid[id(it)] = new
+                    shown[id(it)] = new
+                elif it["kind"] == "field":
+                    fid[id(it)] = new
+                    shown[id(it)] = new
+                else:
+                    shown[id(it)] = new
+                    for m2 in items:
+                        if m2["kind"] == "method":
+                            mid[id(m2)] = hook.get(m2["orig"], m2["orig"])
+                    for m2 in items:
+                        if m2["kind"] == "method" and cls_of(m2) == it["key"]:
+                            shown[id(m2)] = mid[id(m2)]
+                        elif m2["kind"] == "field" and cls_of(m2) == it["key"]:
+                            shown[id(m2)] = fid[id(m2)]
             elif r < 0.8:
                 it = rng.choice(items)
                 history.append(("reload", it["kind"], it["key"]))
@@ -97,6 +130,12 @@ def shard(ctx, arg):
                     ctx.violation("reload-raises-%s" % it["kind"], "reload raises", {"history": history, "exc": exc_str(e)})
                     failed = True
                     break
+                if it["kind"] == "method":
+                    shown[id(it)] = mid[id(it)]
+                elif it["kind"] == "field":
+                    shown[id(it)] = fid[id(it)]
+                else:
+                    shown[id(it)] = hook.get(it["orig"], it["orig"])
             else:
                 history.append(("query",))
             ctx.ev()
@@ -109,18 +148,21 @@ def shard(ctx, arg):
                 if got != want:
                     shared_with = [y for y in renamed if y is not it and y["orig"] == it["orig"]]
                     never = it not in renamed
-                    if shared_with:
+                    if shared_with and got == shown[id(it)]:
+                        # exactly what the shared string-index hook produces
                         mech = "rename-leaks-to-item-sharing-the-name-string" if never else "renamed-item-overwritten-by-rename-of-item-sharing-the-name-string"
+                    elif shared_with:
+                        mech = "rename-divergence-not-explained-by-the-shared-hook-%s" % it["kind"]
                     else:
                         mech = "rename-divergence-%s-%s" % (it["kind"], "never-renamed" if never else "renamed")
-                    ctx.violation(mech, "an item does not report its most recent name", {"item": [it["kind"], it["key"]], "got": got, "want": want, "history": history})
+                    ctx.violation(mech, "an item does not report its most recent name", {"item": [it["kind"], it["key"]], "got": got, "want": want, "known_mechanism_predicts": shown[id(it)], "history": history})
                     failed = True
             for ins, s in const_ins:
                 ctx.count("constants_compared")
                 got = ins.get_string()
                 if got != s:
                     shared = [y for y in renamed if y["orig"] == s]
-                    mech = "string-constant-changed-by-rename-of-item-with-equal-name" if shared else "string-constant-changed"
+                    mech = "string-constant-changed-by-rename-of-item-with-equal-name" if (shared and got == hook.get(s, s)) else "string-constant-changed"
                     ctx.violation(mech, "a string constant in code changed after a rename", {"constant": s, "got": got, "history": history})
                     failed = True
             if failed:
